@@ -3,11 +3,13 @@
 set -e
 cd "$(dirname "$0")"
 mkdir -p evidence replays
-if [ -d specs ]; then
-  cd specs
-  for f in *.tla; do
-    [ -f "$f" ] || continue
-    out=$(tla-sany "$f" 2>&1) || { echo "$out"; echo "SANY failed on $f"; exit 1; }
-  done
-fi
+for dir in specs specs/apalache; do
+  [ -d "$dir" ] || continue
+  ( cd "$dir"
+    for f in *.tla; do
+      [ -f "$f" ] || continue
+      out=$(tla-sany "$f" 2>&1) || { echo "$out" | tail -20; echo "SANY failed on $dir/$f"; exit 1; }
+    done ) || exit 1
+done
+/venv/bin/python -c "import dep_logic, packaging" || { echo "repository interpreter cannot import dep_logic"; exit 1; }
 echo setup ok
